@@ -290,13 +290,21 @@ def t2_mempool(res, tier, broken):
                 bad = (lines, d)
     if bad:
         lines, d = bad
-        small = D.ddmin(lines, lambda ls: compare("mempool", exe, ls) is not None, keep_prefix=1, budget=300)
-        d2 = compare("mempool", exe, small) or d
-        rc, out_c, err = D.run_lines([exe], small)
-        if rc == 0:
-            why = mempool_oracle(small, out_c)
+        # first: does the implementation's own output contradict C15 anywhere on this history (not only at the first
+        # point where it differs from the model)?
+        vh = D.violating_history(lines, lambda ls: D.run_lines([exe], ls), mempool_oracle, keep_prefix=1, budget=300)
+        if vh:
+            small, why = vh
+            d2 = compare("mempool", exe, small) or d
+            rc, out_c, err = D.run_lines([exe], small)
         else:
-            why = "implementation aborted (sanitizer / assertion / signal %d): %s" % (rc, err[-800:])
+            small = D.ddmin(lines, lambda ls: compare("mempool", exe, ls) is not None, keep_prefix=1, budget=300)
+            d2 = compare("mempool", exe, small) or d
+            rc, out_c, err = D.run_lines([exe], small)
+            if rc == 0:
+                why = mempool_oracle(small, out_c)
+            else:
+                why = "implementation aborted (sanitizer / assertion / signal %d): %s" % (rc, err[-800:])
         rep = {"correspondence": "T2 mempool (harness/wb_mempool.c vs Model.MemPool)", "ops": small, "disagreement": d2,
                "impl_output": out_c[-12:], "oracle": why}
         if why:
